@@ -28,8 +28,9 @@ META = {
     'F14': 'complete encoder, IndexError while analysing a graph in which an option is infeasible from the start because '
            'it activates a choice whose only option conflicts with it '
            '(e.g. C0: s0->[n1,n2]; C1: n1->[n2]; n1 incompatible n2): GraphProcessor construction fails although {s0,n2} is feasible',
-    'F9': 'fast encoder collapses LINKED choices into one variable even when they are never active together: options of the '
-          'later choices are unreachable',
+    'F9': 'fast encoder collapses LINKED choices into one variable although they are not all permanent: the choice that is '
+          'resolved first takes option 0 (or the options of choices that are never active together are unreachable) '
+          '(e.g. P: a->[po0,po1]; X0 under po0, X1 under a; LINKED(X0,X1): architecture (po0,x0o1,x1o1) is never decoded)',
 }
 
 
@@ -66,6 +67,8 @@ def classify(prop, v):
         return 'F8'
     if enc in ('COMPLETE', None) and cc_conditional(spec):
         return 'F10'
+    if enc == 'FAST' and cc_conditional(spec) and any(c[0] == 'LINKED' for c in spec.get('cc', [])):
+        return 'F9'
     return None
 
 
